@@ -357,6 +357,102 @@ fn run_hold(c: &Case, ms: u64, n: usize, out: &mut Outcome) {
             out.fails.push(format!("C19 while the storage was locked elsewhere for {ms} ms ({}), a thread emitted {n} events inside its span: {got} captured, {attached} attached to the span", if phase == 0 { "a reader" } else { "another emitter formatting a slow value" }));
         }
     }
+    // phase 3: a thread panics inside an entered span while a reader holds the storage; what it emits
+    // while unwinding (an event from a drop guard, the span's exit and close) is captured like
+    // anything else once the lock is free
+    {
+        struct LogOnDrop(&'static tracing_core::Metadata<'static>);
+        impl Drop for LogOnDrop {
+            fn drop(&mut self) {
+                let field = crate::dynsite::nth_field(self.0, 0);
+                let v = 7u64;
+                let value: &dyn tracing_core::field::Value = &v;
+                let arr = [(&field, Some(value))];
+                let vs = self.0.fields().value_set(&arr);
+                tracing_core::Event::dispatch(self.0, &vs);
+            }
+        }
+        let cfg = Config { layers: vec![c.filter.clone()], global: None, pass: vec![], per_layer: false, nested: false };
+        let (dispatch, storages) = cfg.build();
+        let storage = storages[0].clone();
+        let started = std::sync::Barrier::new(2);
+        thread::scope(|scope| {
+            let (d2, started) = (dispatch.clone(), &started);
+            let worker = scope.spawn(move || {
+                dispatcher::with_default(&d2, || {
+                    let _ = std::panic::catch_unwind(std::panic::AssertUnwindSafe(|| {
+                        let vs = sp_meta.fields().value_set(&[]);
+                        let span = tracing::Span::new_root(sp_meta, &vs);
+                        let _g = span.enter();
+                        let _cleanup = LogOnDrop(ev_meta);
+                        started.wait();
+                        thread::sleep(std::time::Duration::from_millis(ms / 4));
+                        panic!("worker fails inside its span");
+                    }));
+                });
+            });
+            started.wait();
+            let guard = storage.lock();
+            thread::sleep(std::time::Duration::from_millis(ms));
+            drop(guard);
+            let _ = worker.join();
+        });
+        let lock = storage.lock();
+        let events = lock.all_events().filter(|e| e.metadata().name() == "held-event" && e.parent().map_or(false, |p| p.metadata().name() == "held-span")).count();
+        let stats = lock.all_spans().find(|s| s.metadata().name() == "held-span").map(|s| s.stats());
+        let ok = events == 1 && stats.map_or(false, |st| st.entered == 1 && st.exited == 1 && st.is_closed);
+        if !ok {
+            out.fails.push(format!("C19 a thread unwinding out of its span while the storage was locked elsewhere for {ms} ms: {events} of 1 cleanup events captured in the span, span stats {stats:?} (expected entered 1, exited 1, closed)"));
+        }
+    }
+    // phase 4: one thread runs several tasks, each under a fresh subscriber that feeds the same
+    // storage (fresh registries hand out the same span ids again); the task spans are closed by
+    // another thread; every task's event belongs to that task's span
+    {
+        let storage = tracing_capture::SharedStorage::default();
+        let (tx, rx) = std::sync::mpsc::channel::<tracing::Span>();
+        let tasks = 6usize;
+        thread::scope(|scope| {
+            let st = storage.clone();
+            let worker = scope.spawn(move || {
+                for i in 0..tasks as u64 {
+                    use tracing_subscriber::layer::SubscriberExt;
+                    let sub = tracing_subscriber::Registry::default().with(tracing_capture::CaptureLayer::new(&st));
+                    let d = Dispatch::new(sub);
+                    dispatcher::with_default(&d, || {
+                        let vs = sp_meta.fields().value_set(&[]);
+                        let span = tracing::Span::new_root(sp_meta, &vs);
+                        {
+                            let _g = span.enter();
+                            let field = crate::dynsite::nth_field(ev_meta, 0);
+                            let value: &dyn tracing_core::field::Value = &i;
+                            let arr = [(&field, Some(value))];
+                            let vs = ev_meta.fields().value_set(&arr);
+                            tracing_core::Event::dispatch(ev_meta, &vs);
+                        }
+                        tx.send(span).unwrap(); // closed elsewhere
+                    });
+                }
+                drop(tx);
+            });
+            for span in rx {
+                drop(span);
+            }
+            let _ = worker.join();
+        });
+        let lock = storage.lock();
+        let spans: Vec<_> = lock.all_spans().collect();
+        let mut wrong = vec![];
+        for (i, e) in lock.all_events().enumerate() {
+            let want = spans.get(i);
+            if e.parent().as_ref() != want || want.map_or(true, |s| !s.events().any(|x| x == e)) {
+                wrong.push(i);
+            }
+        }
+        if spans.len() != tasks || lock.all_events().len() != tasks || !wrong.is_empty() {
+            out.fails.push(format!("C19 {tasks} tasks on one thread, each under a fresh subscriber feeding one storage, spans closed by another thread: {} spans, {} events captured; events {wrong:?} are not attached to their own task's span", spans.len(), lock.all_events().len()));
+        }
+    }
     out.tags.push("hold".into());
     out.tags.push("nontrivial".into());
 }
